@@ -3,7 +3,7 @@
 /// Fragments for label values: concatenations of these make boundary-shifted tuples common.
 pub const VALUE_FRAGS: &[&str] = &[
     "", "a", "b", "ab", "ba", "c", "é", "\u{7f}", "ÿ", "\u{80}", "日本", "😀", " ", "0",
-    "aaaaaaaaaaaaaaaaaaaaaaaaaaaaaaaaaaaaaaaa",
+    "aaaaaaaaaaaaaaaaaaaaaaaaaaaaaaaaaaaaaaaa", "\0", "\0\0", "abcdefg", "A", ",", "!",
 ];
 
 /// Adversarial fragments for help texts and label values in exposition formats.
@@ -12,6 +12,26 @@ pub const TEXT_FRAGS: &[&str] = &[
     "\u{2028}", "\u{85}", "é", "日本", "😀", "\u{7f}", "\0", "\nx 1\n# TYPE x counter", "\" } 1\ny{z=\"",
     "# HELP a b", "1", "+Inf", "NaN", "\\x", "\u{feff}", "a b", "\\", "\u{0b}", "\u{0c}",
 ];
+
+/// Long fragments (>= 1 KiB after escaping, in ASCII, multi-byte and all-escapes flavours): internal
+/// buffers and fast paths tend to have thresholds.
+pub fn long_frags() -> &'static [&'static str] {
+    static POOL: std::sync::OnceLock<Vec<&'static str>> = std::sync::OnceLock::new();
+    POOL.get_or_init(|| {
+        let mk = |s: String| -> &'static str { Box::leak(s.into_boxed_str()) };
+        vec![
+            mk("x".repeat(1023)),
+            mk("x".repeat(1024)),
+            mk("y".repeat(1500)),
+            mk("é".repeat(600)),
+            mk("日".repeat(342)),
+            mk("\\".repeat(512)),
+            mk("\n".repeat(700)),
+            mk("z".repeat(4097)),
+            mk("q\"".repeat(9000)),
+        ]
+    })
+}
 
 pub const VALID_LABEL_NAMES: &[&str] = &["a", "b", "ab", "l1", "x_y", "B", "_z", "le2", "quantile_", "a0"];
 pub const CONST_LABEL_NAMES: &[&str] = &["c1", "aa", "zz", "A", "k_", "c_2"];
